@@ -30,6 +30,7 @@ type ng15Case struct {
 	Gz      bool
 	GzCut   int
 	NoModel bool
+	CmpModes bool
 }
 
 func ng15Parse(ops []string) (c ng15Case) {
@@ -65,6 +66,8 @@ func ng15Parse(ops []string) (c ng15Case) {
 			c.GzCut = atoi(arg)
 		case "nomodel":
 			c.NoModel = true
+		case "cmpmodes":
+			c.CmpModes = true
 		}
 	}
 	return
@@ -153,6 +156,34 @@ func (c15ng) Run(c Case) (res Result) {
 			}
 			res.Oracle = append(res.Oracle, "C15:alloc\t"+why+" "+s)
 			break
+		}
+		// the zero-copy and the copying call must return the same packets (each looked at right after its read)
+		if k.CmpModes {
+			oro := k.Ro
+			oro.ZeroCopy = !oro.ZeroCopy
+			other := ngTimed(bytes.NewReader(stream), oro, -1)
+			if other == nil {
+				res.Oracle = append(res.Oracle, "C15:hang\tno result within 30 s (other read call)")
+			} else {
+				if other.New == "panic" || other.End == "panic" {
+					res.Oracle = append(res.Oracle, fmt.Sprintf("C15:panic\tthe %s call panicked at read #%d", map[bool]string{true: "zero-copy", false: "copying"}[oro.ZeroCopy], len(other.Pkts)))
+				}
+				a, b := r.Lines(), other.Lines()
+				if strings.Join(a, "\n") != strings.Join(b, "\n") {
+					d := 0
+					for d < len(a) && d < len(b) && a[d] == b[d] {
+						d++
+					}
+					g, w := "<none>", "<none>"
+					if d < len(a) {
+						g = a[d]
+					}
+					if d < len(b) {
+						w = b[d]
+					}
+					res.Oracle = append(res.Oracle, fmt.Sprintf("C15:zero-copy-equals-copy\tline %d: this call %.90s, the other call %.90s", d, g, w))
+				}
+			}
 		}
 		// chunking / injected error: same result as the plain read of the bytes delivered
 		if k.GzCut < 0 && (len(k.Sizes) > 0 || k.FailAt >= 0 || k.DataErr || k.Gz) {
@@ -483,6 +514,46 @@ func (c15ng) Gen(rng *rand.Rand, tier string) []Case {
 			if p%4 == 1 {
 				add(s, "ro:000", "mode:zc", fmt.Sprintf("fail:%d", p), "dataerr", "chunk:5")
 			}
+		}
+	}
+	// (h) valid files with large packets: capture lengths around powers of two and round sizes, on
+	// interfaces with snap length 0 and with a large snap length; a smaller packet in between (buffer
+	// reuse) and a larger one after a smaller one (buffer growth); read with both calls
+	bigSizes := []int{65535, 65536, 65537, 262144, 262145}
+	oracleOnly := []int{1048577}
+	if thorough {
+		bigSizes = append(bigSizes, 262143, 131072, 300000, 524288)
+		oracleOnly = []int{1048575, 1048576, 1048577, 4194305}
+	}
+	bigFile := func(n int, snap uint32, be bool) []byte {
+		b := newNgBuilder(be)
+		b.shb(nil)
+		b.idb(1, snap, []ngOpt{{9, []byte{9}}})
+		b.epb(0, 1600000000000000000, 1000, 1000, ngRandBytes(rng, 1000), nil, false)
+		d := ngRandBytes(rng, n)
+		b.epb(0, 1600000001000000000, uint32(n), uint32(n), d, []ngOpt{{1, []byte("big")}}, true)
+		b.epb(0, 1600000002000000000, 3, 3, []byte{1, 2, 3}, nil, false)
+		b.epb(0, 1600000003000000000, uint32(n), uint32(n)+5, d, nil, false)
+		return b.buf
+	}
+	for i, n := range bigSizes {
+		snap := uint32(0)
+		if i%2 == 1 || thorough {
+			snap = 2 << 20
+		}
+		f := bigFile(n, snap, i%3 == 2)
+		add(f, "ro:000", "mode:zc", "cmpmodes", "tag:big-packet")
+		if n >= 262145 || thorough {
+			add(bigFile(n, 0, false), "ro:100", "mode:copy", "cmpmodes", "tag:big-packet")
+		}
+		if thorough {
+			add(bigFile(n, uint32(n), false), "ro:000", "mode:zc", "cmpmodes", "chunk:4096", "tag:big-packet")
+		}
+	}
+	for _, n := range oracleOnly {
+		add(bigFile(n, 0, false), "ro:000", "mode:zc", "cmpmodes", "tag:big-packet", "nomodel")
+		if thorough {
+			add(bigFile(n, 8<<20, true), "ro:000", "mode:copy", "cmpmodes", "tag:big-packet", "nomodel")
 		}
 	}
 	// (g) gzip-wrapped: valid, mutated, cut
